@@ -203,7 +203,9 @@ class Sim:
             if disk != "absent":
                 data = content if disk == "ok" else (content[:-1] + b"!" if content else b"!") if disk == "corrupt" else content[: len(content) // 2]
                 w.put_on_disk(node, fr, data)
-                if disk != "ok" or c["has"] != "Y":
+                # the initial world may disagree with storage (as after tampering): such copies are exempt until the daemon's own next verdict.
+                # A copy recorded corrupt over bytes that are indeed wrong is a verdict already given: index and storage agree.
+                if not ((c["has"] == "Y" and disk == "ok") or (c["has"] == "X" and disk in ("corrupt", "truncated"))):
                     self.tainted.add((c["node"], f"{fr.acq.name}/{fr.name}"))
         for r in spec.get("reqs", []):
             fr, _ = self.files[r["file"]]
